@@ -57,6 +57,7 @@ pub fn predict_and_check<'p>(
     start_tags: bool,
     warm: Option<&'p Predictor>,
 ) -> Option<(Sentence<'static, 'p>, Vec<i64>)> {
+    let warm_has_tags = variant.starts_with("tag predictor");
     let n = text.len();
     let refs = ref_scores(&case.model, text);
     if refs.iter().any(|&s| s > i64::from(i32::MAX) || s < i64::from(i32::MIN)) {
@@ -73,16 +74,22 @@ pub fn predict_and_check<'p>(
         }
     }
     let warm_fill = rng.chance(1, 2);
+    let repredict = rng.chance(1, 5);
+    ctx.flag("sentences_predicted_twice_in_a_row", repredict);
     let built = guard(|| {
         let mut s = build_sentence(&rs);
         if let Some(w) = warm {
             // the same sentence object was analysed by another tag predictor just before
             w.predict(&mut s);
-            if warm_fill {
+            if warm_fill && warm_has_tags {
                 s.fill_tags();
             }
         }
         pred.predict(&mut s);
+        if repredict {
+            // predicting the same sentence again must give the same scores (nothing accumulates)
+            pred.predict(&mut s);
+        }
         s
     });
     let s = match built {
@@ -222,9 +229,10 @@ pub fn run_c01(ctx: &mut Ctx, from: u64, to: u64, tiny: bool) {
         count_model_facts(ctx, &case.model);
         let Some(p_plain) = make_predictor(ctx, "C01", &case, false) else { continue };
         let p_tag = if case.model.tag_models.is_empty() { None } else { make_predictor(ctx, "C01", &case, true) };
+        let other = if k % 4 == 0 { new_predictor(&perturb(&case.model, &case.texts, &mut rng), false).ok() } else { None };
         let mut occ = 0;
         for text in &case.texts {
-            let Some((_s, refs)) = predict_and_check(ctx, "C01", &case, text, &p_plain, &mut rng, "predict_tags=false", true, None)
+            let Some((_s, refs)) = predict_and_check(ctx, "C01", &case, text, &p_plain, &mut rng, "predict_tags=false", true, other.as_ref())
             else {
                 continue;
             };
